@@ -172,7 +172,7 @@ def mk_conv_fp(name, S, D, tag, prop, views=("gcc", "clang")):
         return [("outcome", False)]
     return Kernel(name, [("a", S)], D, body, mode="bv", W=nb + 8, views=views, pre=pre, claims=claims,
                   allow_ub=(prop == "C06"), desc="convert %s -> %s [%s]" % (S, D, tag), timeout=60,
-                  tags={"op": "convert", "L": S, "D": D, "tag": tag, "res": D})
+                  tags={"op": "convert", "L": S, "D": D, "tag": tag, "res": D, "fp": True})
 
 
 def specs_for(opts, prop):
